@@ -1032,3 +1032,94 @@ def find_sample_size_comparison(S, I, variant):
     exp = xite(two, ZERO, xite(one_, small, big))
     S.eq("x[i] = 0 at multiples of int(1/rate_2), else the one-vote overstatement value at multiples of int(1/rate_1), else the error-free value",
          x.at(i), exp)
+
+
+# ------------------------------------------------------------------ C06 / C07: mvrs_to_data, UNBOUNDED number of sampled cards
+
+def lazy_assorter(S, I, con, u_a, means):
+    """Assorter abstracted by its interface contract, for an unbounded number of cards: each card gets its own value in [0, u]"""
+    cls = I.get(MOD, "Assorter")
+    vals, keep = {}, []
+
+    def value_of(card):
+        if id(card) not in vals:
+            keep.append(card)
+            v = XR.finvar(ctx().fresh("assort_value"))
+            ctx().assume(band(xcmp(">=", v, ZERO), xcmp("<=", v, u_a)), definitional=True)
+            vals[id(card)] = v
+        return vals[id(card)]
+
+    def assort(I_, a, k):
+        return value_of(a[0] if a else next(iter(k.values())))
+
+    obj = Obj(cls, {"contest": con, "assort": Builtin("abstract_assort", assort), "upper_bound": u_a,
+                    "tally_pool_means": means, "winner": None, "loser": None})
+    return obj, value_of
+
+
+@script(["C06", "C07"], "Assertion.mvrs_to_data/comparison (unbounded number of sampled cards)",
+        variants=tuple((s, a) for s in ("style", "nostyle") for a in ("all", "thr")))
+def mvrs_to_data_unbounded(S, I, variant):
+    use_style = variant[0] == "style"
+    use_all = variant[1] == "all"
+    c = ctx()
+    N = S.integer("n_sampled", lo=0)
+    u_a = S.real("u_a", lo=Fraction(1, 2))
+    thr = S.real("sample_threshold")
+    con = mk_contest(I, id="con", cards=S.integer("cards", lo=1), candidates=["A", "B"], winner=["A"],
+                     audit_type="CARD_COMPARISON", use_style=use_style, sample_threshold=thr)
+    mk = lambda pre: SymObjList(iterm(N), lambda i: sym_cvr(I, f"{pre}@{z3.simplify(zi(i))}", {"con": ["A", "B"]}))
+    mvrs, cvrs = mk("mvr"), mk("cvr")
+    means = SymMap("pool_mean", lo=0, hi=u_a)
+    assorter, value_of = lazy_assorter(S, I, con, u_a, means)
+    v = S.real("margin", lo_strict=0)
+    c.assume(xcmp("<=", v, xsub(xmul(XR.const(2), u_a), ONE)))
+    asn = Obj(I.get(MOD, "Assertion"), {"contest": con, "assorter": assorter, "margin": v, "winner": "A", "loser": "B"})
+    fn = I.getattr(asn, "mvrs_to_data")
+    r, exc = guard(S, I, lambda: I.call(fn, [mvrs, cvrs], {"use_all": use_all}))
+    if exc:
+        return
+    d, u = r
+    if not isinstance(d, FilteredArr):
+        raise NotApplicable("the data are not built as a filtered comprehension over the sampled positions")
+    den = xsub(XR.const(2), xdiv_np(v, u_a))
+    S.eq("u = 2/(2 - v/u_assorter)", u, xdiv_np(XR.const(2), den))
+    S.holds("one candidate observation per sampled card, in order", icmp("==", d.length, N))
+    i = z3.Int(c.fresh("pos"))
+    c.assume(z3.And(i >= 0, i < zi(N)))
+    cv, mv = cvrs.at(i), mvrs.at(i)
+    value_of(mv), value_of(cv)        # (the interface values exist before the real code asks for them inside a merged evaluation)
+    contributes = True if not use_style else band(has_contest(cv, "con"), True if use_all else xcmp("<=", cv.attrs["sample_num"], thr))
+    S.holds("card i contributes exactly when (no style information, or) its CVR lists the contest and its sample number is within the threshold",
+            biff(d.cond(i), contributes))
+    if c.decide(contributes):
+        val = d.elem(i)
+        spec, at, ct = overst_spec(I, mv, cv, value_of(mv), value_of(cv), means, use_style)
+        S.eq("value of a contributing card i = B(mvr_i, cvr_i)", val, xdiv_np(xsub(ONE, xdiv_np(spec, u_a)), den))
+        S.holds("0 <= value <= u", band(xcmp(">=", val, ZERO), xcmp("<=", val, u)))
+
+
+@script(["C06"], "Assertion.mvrs_to_data/polling (unbounded number of sampled cards)")
+def mvrs_to_data_polling_unbounded(S, I, variant):
+    c = ctx()
+    N = S.integer("n_sampled", lo=0)
+    u_a = S.real("u_a", lo=Fraction(1, 2))
+    con = mk_contest(I, id="con", cards=S.integer("cards", lo=1), candidates=["A", "B"], winner=["A"],
+                     audit_type="POLLING", use_style=True, sample_threshold=S.real("sample_threshold"))
+    mvrs = SymObjList(iterm(N), lambda i: sym_cvr(I, f"mvr@{z3.simplify(zi(i))}", {"con": ["A", "B"]}))
+    assorter, value_of = lazy_assorter(S, I, con, u_a, SymMap("pool_mean", lo=0, hi=u_a))
+    asn = Obj(I.get(MOD, "Assertion"), {"contest": con, "assorter": assorter, "margin": S.real("margin", lo_strict=0), "winner": "A", "loser": "B"})
+    fn = I.getattr(asn, "mvrs_to_data")
+    r, exc = guard(S, I, lambda: I.call(fn, [mvrs, None], {}))
+    if exc:
+        return
+    d, u = r
+    S.eq("u = assorter bound", u, u_a)
+    from pyvc.npmodel import to_arr
+    darr = to_arr(I, d)
+    S.holds("one value per manual record", icmp("==", darr.length, N))
+    i = z3.Int(c.fresh("pos"))
+    c.assume(z3.And(i >= 0, i < zi(N)))
+    mv = mvrs.at(i)
+    S.eq("d[i] = assort(mvr_i)", darr.at(i), value_of(mv))
+    S.holds("0 <= d[i] <= u", band(xcmp(">=", darr.at(i), ZERO), xcmp("<=", darr.at(i), u)))
